@@ -17,3 +17,24 @@ Theorem C02_visitor_sees_prefix_partial : forall (A : Type) (items : list A) ans
   exists k, visit items answers = firstn k items.
 Proof. exact @visit_prefix. Qed.
 Print Assumptions C02_visitor_sees_prefix_partial.
+
+(* the byte codec of a document's stored fields: the frozen reader (Layout.stored_doc, the parser
+   the correspondence run applies to the files zapx writes) recovers exactly the _id and the stored
+   values (field, type, bytes, array positions) in order from the documented encoding, for any
+   number of values; snappy is a Section hypothesis (decode . encode = id) *)
+Require ZV.StoredProof ZV.Layout ZV.LayoutProof ZV.Bytes ZV.Footer.
+Theorem C02_stored_document_roundtrip :
+  forall (snappy_enc : Bytes.bytes -> Bytes.bytes) (dec_snappy : Bytes.bytes -> option Bytes.bytes),
+  (forall x, dec_snappy (snappy_enc x) = Some x) ->
+  forall (ft : list Layout.frec) file storedIdx d so idv (es : list StoredProof.ent) rest1 rest2,
+  Forall (StoredProof.wf_ent ft) es ->
+  Bytes.u64 (LayoutProof.nlenb (concat (map StoredProof.e_val es))) -> Bytes.u64 (LayoutProof.nlenb idv) ->
+  Bytes.u64 (LayoutProof.nlenb (Bytes.uv (LayoutProof.nlenb idv) ++ StoredProof.enc_ents 0 es)) ->
+  Bytes.u64 (LayoutProof.nlenb (idv ++ snappy_enc (concat (map StoredProof.e_val es)))) ->
+  (so < 256 ^ 8)%N ->
+  Layout.at_off file (storedIdx + 8 * d)%N = Some (Footer.be 8 so ++ rest1) ->
+  Layout.at_off file so = Some (StoredProof.enc_doc snappy_enc idv es ++ rest2) ->
+  Layout.stored_doc dec_snappy file ft storedIdx d =
+    Some ({| Spec.s_field := Spec.id_name; Spec.s_typ := 116; Spec.s_val := idv; Spec.s_ap := [] |} :: map (StoredProof.sval_of ft) es).
+Proof. exact StoredProof.stored_doc_roundtrip. Qed.
+Print Assumptions C02_stored_document_roundtrip.
